@@ -19,7 +19,10 @@ pub(crate) fn nth(mut args: ArgumentResult, visitor: &mut Visitor) -> SassResult
         return Err(("$n: List index may not be 0.", args.span()).into());
     }
 
-    if index.num.abs() > Number::from(list.len()) {
+    // an index within the integer tolerance of the length (e.g. a computed `2.0000000000001`)
+    // is that integer, as it is for every index below the length
+    let len = Number::from(list.len());
+    if index.num.abs() > len && index.num.abs() != len {
         return Err((
             format!(
                 "$n: Invalid index {}{} for a list with {} elements.",
